@@ -80,7 +80,9 @@ CLAIMED = {
               '(plane multiply, DFT/FFT propagation with scratch, tilt fitting both modes, rescale/resample/copy, dft2/idft2 with repeated '
               'shapes and out=, Zernike, array utilities, shapes, detector chain, seeded noise models, spectrum arithmetic and queries, a shared '
               'dispersive element used at several wavelengths, documented in-place operations on objects derived from shared ones, '
-              'one-argument-varied repeats of calls) are '
+              'one-argument-varied repeats of calls, calls refused for invalid arguments, attribute-update paths, arguments kept in caller-owned '
+              'arrays, and calls generated from a type-aware catalogue of the whole public surface with optional arguments, dtypes, layouts and '
+              'containers varied) are '
               'interleaved by a seeded scheduler together with cache-size changes/clears, global-RNG draws and reseeds, duplicate calls and '
               '(one run in four) read-only caller arrays. Oracles: byte snapshot of every store entry around every call (alias-aware '
               'whitelist for documented in-place calls); repeat = first; each caller\'s interleaved outcome sequence = its solo run in a '
